@@ -349,7 +349,8 @@ def check_block_layers(ctx, prog, tag):
                 watchers.append(g_)
         for g_ in watchers:
             used = set()
-            for h_ in [g_] + prog.closures_of(g_.path):
+            gv_ = prog.view(g_.path, keep=("last", "last_mut", "is_discarding", "get_mut")) if g_.kind != "closure" else g_
+            for h_ in [gv_] + prog.closures_of(g_.path):
                 for c in h_.calls():
                     if c.args and any("capture_stack" in o.proj for o in flow.origins(
                             h_, c.args[0], through_calls=lambda k: 0 if k.name.endswith(("::deref", "::deref_mut", "::iter", "::iter_mut")) else None)):
